@@ -224,10 +224,23 @@ class Impl:
         return r0, bytes(pk.data), vals, errs
 
 
-def fmt_line(st, addrs, pyf, pyv, fastf, fastv):
-    j = lambda xs: ",".join(str(int(x)) for x in xs)
-    return (f"starts={j(st)} addrs={j(addrs)} py={pyf if isinstance(pyf, str) else pyf.hex()} pyv={'-' if pyv is None else j(pyv)} "
-            f"prog={fastf.hex()} progv={j(fastv)}")
+def fmt_line(st, addrs, pyf, pyv, pyreads, fastf, fastv, fastreads):
+    j = lambda xs: "-" if xs is None else ",".join(str(int(x)) for x in xs)
+    return (f"starts={j(st)} addrs={j(addrs)} py={pyf if isinstance(pyf, str) else pyf.hex()} pyv={j(pyv)} reads={j(pyreads)} "
+            f"prog={fastf.hex()} progv={j(fastv)} reads={j(fastreads)}")
+
+
+def read_all(G, case, data):
+    """Python `get` of every linked variable on a frame (slow group: after update(); fast group: what fast_update()
+    sees in the frame that came back)"""
+    G["sg"].current_data = data
+    try:
+        return [int(getattr(G["devs"][v["dev"]], f"tv{vi}")) for vi, v in enumerate(case["vars"])]
+    except Exception as e:
+        return "other:" + type(e).__name__
+    finally:
+        if "insns" in G:
+            G["sg"].current_data = None
 
 
 def check_one(ctx, impl, case):
@@ -252,6 +265,8 @@ def check_one(ctx, impl, case):
     pyframe, pkt = impl.frames(case, lay, S)
     pyout, pyvals = impl.run_py(case, S, pyframe)
     r0, fastout, fastvals, errs = impl.run_fast(case, F, pkt)
+    pyreads = None if isinstance(pyout, str) else read_all(S, case, bytearray(pyout))
+    fastreads = read_all(F, case, fastout[14:])
     ref = reference(case, lay, pyframe)
     hdr = bytes.fromhex(case["hdr"])
     if ref is not None:
@@ -264,13 +279,17 @@ def check_one(ctx, impl, case):
         ctx.require(fastout[14:] == want, "program path: frame after the statements is not 'only own bytes/bit written with the value'", case, obs, "prog-frame")
         ctx.require(fastvals == wvals, "program path: value read is not the variable's own bytes/bit", case, obs, "prog-value")
         ctx.require(pyout == fastout[14:] and pyvals == fastvals, "the two paths leave different frames / values", case, obs, "paths-differ")
+        wreads = [(want[s] >> r[2]) & 1 if isinstance(r[2], int) else
+                  int.from_bytes(want[s:s + width(r[2])], "little", signed=signed(r[2])) for s, r in zip(st, lay["res"])]
+        ctx.require(pyreads == wreads and fastreads == wreads, "Python get of a variable on the final frame is not its own bytes/bit "
+                    "(slow group / fast group's received frame)", case, f"slow={pyreads} fast={fastreads} want={wreads}", "py-read")
         if not isinstance(pyout, str):
             for nm, before, after in (("python", pyframe, pyout), ("program", pyframe, fastout[14:])):
                 stray = [k for k in range(len(before)) if (before[k] ^ after[k]) & ~own.get(k, 0) & 0xff]
                 ctx.require(not stray, f"{nm} path changed bytes/bits that belong to no written variable", case, f"offsets {stray}", "own-bytes")
     changed = ref is not None and (ref[0] != pyframe or any(o["op"] == "get" for o in case["ops"]))
     kinds = sorted(opkind(case, lay, o) for o in case["ops"])
-    return fmt_line(real_st, [a for _, a in real_fa], pyout, pyvals, fastout, fastvals), pyframe, ref is not None, changed, kinds
+    return fmt_line(real_st, [a for _, a in real_fa], pyout, pyvals, pyreads, fastout, fastvals, fastreads), pyframe, ref is not None, changed, kinds
 
 
 def opkind(case, lay, o):
@@ -486,7 +505,7 @@ def model_line(case, lay, pyframe):
 def run(ctx):
     impl = Impl()
     cases, outs, lines = [], [], []
-    nconf = ctx.n(1200, 25000)
+    nconf = ctx.n(800, 25000)
     for _ in range(nconf):
         cfg = None
         while cfg is None:
